@@ -6,7 +6,7 @@ from ..runner import Case, Property
 
 class C04(Property):
     id = "C04"
-    lean_module = "RosuModel.Props.C04Slider"   # imports Props/C04.lean; both files are in namespace Rosu.C04
+    lean_module = "RosuModel.Props.C04All"   # imports Props/C04Slider.lean and Props/C04Timing.lean (which import Props/C04.lean); all in namespace Rosu.C04
     namespace = "Rosu.C04"
     design_ref = "5.4"
     required_theorems = ["headers_recognised", "encode_shape", "block_starts_with_header", "encoded_text_lines", "version_line_parses",
@@ -14,7 +14,9 @@ class C04(Property):
                          "record_lines_accepted_editor", "record_lines_accepted_difficulty", "record_lines_accepted_general",
                          "record_lines_accepted_events", "lines_dispatched", "record_blocks_accepted_and_recovered",
                          "hitobject_lines_accepted_partial", "slider_line_accepted", "slider_path_text_clean", "hitobject_lines_accepted",
-                         "slider_line_leaves_clean_buffer", "hitobjects_block_accepted"]
+                         "slider_line_leaves_clean_buffer", "hitobjects_block_accepted",
+                         "timing_block_lines", "decoded_control_points_in_limits", "timing_block_shape", "timing_lines_accepted", "record_and_timing_blocks_accepted",
+                         "sample_timing_rep", "sample_records_rep", "sample_timing_text", "sample_encodes"]
     partial_theorems = {
         "record_lines_accepted_editor / _difficulty / _general / _events, record_blocks_accepted_and_recovered":
             "law-dependent: proved for every number codec satisfying CodecLaws (+ IntPrintLaw for AudioLeadIn), shown satisfiable by Lemmas/ToyCodec.lean; not proved of Rust's "
@@ -35,10 +37,21 @@ class C04(Property):
             "acceptance-only statement is not proved separately. That every object of a DECODED map is representable is not proved here",
         "hitobjects_block_accepted": "law-dependent; conditional on every object of the map being representable (SliderRt.RepObject): encode_hit_objects succeeds, the block is `[HitObjects]` plus "
             "one LF-free record line per object (the ListBlockShape that record_blocks_accepted_and_recovered assumes), and every line is accepted when the block is run from any decoder state",
-        "line acceptance for [TimingPoints] lines and the per-map assembly (timing_lines_accepted, list_block_lines_accepted_statement)":
-            "NOT yet theorems (`def list_block_lines_accepted_statement : Prop`); record_blocks_accepted_and_recovered assumes of these two blocks only that they are LF-terminated lines that "
-            "are neither headers nor skipped. Evaluated on the implementation by the `lines` oracle (a wrapping decoder logs every parser call of the re-decode: no line lost, none "
-            "rejected, same number of objects / timing points / breaks / colours) and by the char-for-char encoder correspondence",
+        "timing_block_shape / timing_lines_accepted / record_and_timing_blocks_accepted":
+            "law-dependent (CodecLaws on the f64-side codec; satisfiable: Lemmas/ToyCodec.lean, non-vacuity on C04.sampleMap — a mania map with two timing points, scroll speeds, kiai, "
+            "a collected object sample and a suppressed redundant group) and stated for maps satisfying the explicit predicate RtTiming.RepTimingMap: every control-point time and every "
+            "timing point's beat length representable by the codec, within the decoder's limit ±(2^31−1) and not NaN; every slider velocity (scroll speed in taiko/mania) v and the default 1 "
+            "with −100/v representable and within the beat-length limits; signature numerators in 1..2^31−1; custom banks ≤ 2^31−1. For a DECODED map the clauses about its own control "
+            "points hold by construction: decoded_control_points_in_limits proves (no law, so also of the IEEE instance) that every decoded map's control points are strictly sorted, with "
+            "times within the limit and not NaN, numerators in 1..2^31−1 and custom banks within ±(2^31−1); C12.clamps gives the clamp ranges of beat lengths and velocities under the clamp "
+            "laws; that the codec represents those finite values, and that −100/v stays within the beat-length limits for v in the clamp range, are not theorems here. The clause a decoded map can violate is the one about sample points AFTER collect_samples: they sit at computed times (start+duration of spinners/holds/sliders, node "
+            "times from slider_events) which may be non-finite or beyond the limit; then the line is rejected. Not assumed away: the implementation-level `lines` oracle checks every "
+            "line of every encoding. timing_block_lines (shape and provenance of every line) needs no law",
+        "list_block_lines_accepted_statement (unconditional)":
+            "NOT a theorem: that every object (RepObject) and every collected control point (RepTimingMap) of a DECODED map is representable, which would discharge the hypotheses of "
+            "hitobjects_block_accepted and timing_lines_accepted for every decoded map. It is false as stated (findings F20; computed sample-point times can be non-finite) and is evaluated on "
+            "the implementation by the `lines` oracle (a wrapping decoder logs every parser call of the re-decode: no line lost, none rejected, same number of objects / timing points / "
+            "breaks / colours) and by the char-for-char encoder correspondence",
     }
     level_text = ("Lean 4 theorems over the encoder and decoder models: the encoded text is the version line followed by the eight blocks in canonical order, each introduced by a blank line and "
                   "starting with the header its decoder recognises (encode_shape, headers_recognised); the version line parses back to the map's version (version_line_parses); each of the six "
@@ -47,10 +60,14 @@ class C04(Property):
                   "end-trimmed lines (encoded_text_lines, via C10) and the framing driver hands each block's lines, in order, to exactly that section's parser (lines_dispatched, via C05); "
                   "file level for the record blocks: record_blocks_accepted_and_recovered; hit-object lines of all four kinds (circles, sliders incl. the whole path-string grammar over the decidable class RepPath, "
                   "spinners, hold notes): hitobject_lines_accepted, slider_line_accepted. "
-                  "Acceptance of timing-point lines, and that every object of a decoded map is representable, are not yet theorems. "
+                  "[TimingPoints]: the block is its header plus LF-terminated lines `time,beat,signature,bank,custom,volume,0|1,flags`, a 1-line per timing point and a 0-line (beat = -100/velocity) "
+                  "per non-redundant group (timing_block_lines, no law); for a representable map and a lawful codec each line is neither a header nor skipped and is accepted by "
+                  "parse_timing_points in any decoder state, applied as exactly the values written (timing_block_shape, timing_lines_accepted); file level: "
+                  "record_and_timing_blocks_accepted — the re-decode hands exactly the block's lines, in order, to parse_timing_points and all are accepted. "
+                  "That every object / collected control point of a decoded map is representable is not a theorem (F20). "
                   "The encoder model is compared character for character with Beatmap::encode_to_string on every generated and bundled map; the property itself is evaluated on the "
                   "real code for every line of every encoding (oracle `lines`).")
-    technique = "Lean 4 proof (output shape, reader inversion, per-line acceptance and dispatch for the six record sections; law-dependent where floats are printed) + char-for-char encoder correspondence + per-line acceptance oracle on the implementation"
+    technique = "Lean 4 proof (output shape, reader inversion, per-line acceptance and dispatch for the six record sections and the [TimingPoints] block; law-dependent where floats are printed) + char-for-char encoder correspondence + per-line acceptance oracle on the implementation"
     trusted_base = [
         "Lean 4.33.0 kernel; axioms ⊆ {propext, Classical.choice, Quot.sound} per #print axioms",
         "hand-written Model/Encode.lean (+ decode model) tied to /repo by the `enc` differential: identical text on every case of this run",
